@@ -152,6 +152,13 @@ class FiltersSet:
         """Return values as a string list."""
         return "[%s]" % ",".join(self.__quote(val) for val in values)
 
+    def __add_match_tag(self, cmd: commands.Command, tag: str) -> None:
+        """Add a match-type (or other) tag to a test, requiring its extension if any."""
+        extension = commands.match_type.get("extension_values", {}).get(tag.lower())
+        if extension:
+            self.require(extension)
+        cmd.check_next_arg("tag", tag, check_extension=False)
+
     def __build_condition(
         self, condition: List[str], parent: commands.Command, tag: Optional[str] = None
     ) -> commands.Command:
@@ -166,7 +173,7 @@ class FiltersSet:
         if tag is None:
             tag = condition[1]
         cmd = commands.get_command_instance("header", parent)
-        cmd.check_next_arg("tag", tag)
+        self.__add_match_tag(cmd, tag)
         if isinstance(condition[0], list):
             cmd.check_next_arg(
                 "stringlist", [self.__quote_if_necessary(c) for c in condition[0]]
@@ -238,7 +245,7 @@ class FiltersSet:
                     negate = True
                 else:
                     comp_tag = c[1]
-                cmd.check_next_arg("tag", comp_tag)
+                self.__add_match_tag(cmd, comp_tag)
                 cmd.check_next_arg("stringlist", self.__quote_list(c[2]))
                 cmd.check_next_arg("stringlist", self.__quote_list(c[3]))
             elif cname == "address":
@@ -248,7 +255,7 @@ class FiltersSet:
                     negate = True
                 else:
                     comp_tag = c[1]
-                cmd.check_next_arg("tag", comp_tag)
+                self.__add_match_tag(cmd, comp_tag)
                 for arg in c[2:]:
                     if isinstance(arg, str):
                         finalarg = self.__quote_if_necessary(arg)
@@ -265,7 +272,7 @@ class FiltersSet:
                     negate = True
                 else:
                     comp_tag = c[2]
-                cmd.check_next_arg("tag", comp_tag)
+                self.__add_match_tag(cmd, comp_tag)
                 cmd.check_next_arg("stringlist", self.__quote_list(c[3:]))
             elif cname == "currentdate":
                 cmd = commands.get_command_instance("currentdate", ifcontrol, False)
@@ -277,10 +284,9 @@ class FiltersSet:
                     negate = True
                 else:
                     comp_tag = c[3]
-                cmd.check_next_arg("tag", comp_tag, check_extension=False)
+                self.__add_match_tag(cmd, comp_tag)
                 next_arg_pos = 4
                 if comp_tag == ":value":
-                    self.require("relational")
                     cmd.check_next_arg(
                         "string", self.__quote_if_necessary(c[next_arg_pos])
                     )
